@@ -514,9 +514,26 @@ func raceScenario(s *Sim, params map[string]string) {
 					if complete {
 						w.Close()
 					}
-					rd := codec.NewReader(bytes.NewReader(buf.Bytes()))
+					stream := buf.Bytes()
+					damaged := r.intn(4) == 0
+					if damaged {
+						// a stream whose header is wrong, cut short or missing:
+						// the error paths hand pooled decoders back too
+						switch r.intn(3) {
+						case 0:
+							if len(stream) > 0 {
+								stream = append([]byte{stream[0] ^ 0xff}, stream[1:]...)
+							}
+						case 1:
+							stream = stream[:r.intn(min(len(stream), 12)+1)]
+						default:
+							stream = nil
+						}
+						complete = false
+					}
+					rd := codec.NewReader(bytes.NewReader(stream))
 					got, _ := io.ReadAll(rd)
-					if r.intn(5) != 0 {
+					if damaged || r.intn(5) != 0 {
 						rd.Close()
 						if complete && !bytes.Equal(got, x) {
 							// (content is C16's subject; reported here only because it is free)
